@@ -1135,7 +1135,7 @@ class RunWsgiStream(Stream):
             mk([S("200 OK", H), E(b"early")], [E(b""), E(b"late"), W(b"direct")]),
             mk([S("200 OK", H)], []),
             mk([S("200 OK", [])], []),
-            mk([S("200 OK", []), S("201 Created", H)], [E(b"x")]),                  # second start_response let through after an empty list
+            mk([S("200 OK", []), S("201 Created", H)], [E(b"x")]),                  # F19c family: before bc55b83 a second start_response was let through after an empty list
             mk([S("200 OK", H), S("201 Created", H)], [E(b"x")]),                   # "Headers already set"
             mk([S("200 OK", H), S("500 Oops", [("B", "2")], True)], [E(b"x")]),      # exc_info before anything was sent: replaces
             mk([S("200 OK", H), E(b"early"), S("500 Oops", [("B", "2")], True)], [E(b"x")]),  # ... after: re-raised
@@ -1144,7 +1144,7 @@ class RunWsgiStream(Stream):
             mk([], [S("200 OK", H), E(b"x")]),                                       # start_response from inside the iterator
             mk([S("200 OK", H)], [E(b"part")], iter_raises=True),
             mk([S("200 OK", H + [("Content-Length", "9")])], [E(b"part")], iter_raises=True),
-            mk([S("200 OK", [])], [E(b"part")], iter_raises=True),                   # known finding F19c
+            mk([S("200 OK", [])], [E(b"part")], iter_raises=True),                   # F19c (fixed by bc55b83): the 500 page was appended and the body terminated
             mk([S("200 OK", [])], [E(b"part")], iter_raises=True, protocol="HTTP/1.0"),
             mk([S("200 OK", H)], [], iter_raises=True),
             mk([S("200 OK", H)], [E(b"x")], call_raises=True),
@@ -1314,18 +1314,10 @@ class RunWsgiStream(Stream):
         # the application's own head went out before the failure: what follows must be its output up to the
         # failure and must not look complete
         if not emitted.startswith(body):
-            what = "after the application failed mid-response the body on the wire is not its output up to the failure"
-            app_headers = [(k_, v) for k_, v in headers if k_.lower() not in ("server", "date", "transfer-encoding", "connection")]
-            cut = [sum(len(d) for d in box["emitted"][:i]) for i in range(len(box["emitted"]) + 1)]
-            if not app_headers and any(body == emitted[:c] + b"".join(fb_body) for c in cut) and (complete or not chunked):
-                return what + F19C_MARK
-            return what
+            return "after the application failed mid-response the body on the wire is not its output up to the failure (F19c, repaired by bc55b83, had the InternalServerError page appended for an empty header list)"
         if chunked and complete:
             return "the application failed mid-response but the chunked body was terminated as if complete"
         return None
-
-    def finding_key(self, case, what):
-        return "F19c" if what.endswith(F19C_MARK) else None
 
     def nontrivial(self, case, real_out):
         return len(case["call"]) + len(case["iter"]) > 1
@@ -1348,7 +1340,6 @@ class RunWsgiStream(Stream):
                 yield c
 
 
-F19C_MARK = " [F19c: the response was started with an EMPTY header list and exactly the InternalServerError page was appended to the partial body (the truthiness tests on headers_set / headers_sent let execute(InternalServerError()) through)]"
 
 
 
@@ -1367,7 +1358,7 @@ CHECK = Check(
         "make_environ is modelled from http.server's parse result (command, path, request_version, headers.items()); urllib.parse.urlsplit / unquote are hand-modelled for targets of printable ASCII without brackets in the authority (outside that domain the model answers nothing); bytes.decode(errors='replace') is the shared Util.Py model; the splitting of the request line and of header lines by http.server stays outside, except for the documented collapse of a leading '//' (httpServerPath, validated by stream hspath)",
         "the response writer is modelled as a state machine over write() calls; the values of the Server and Date headers added by http.server's send_response are opaque inputs; response_wire_exact assumes status and header lines without CR and header names without ':' (neither werkzeug's writer nor http.server validates them)",
         "run_wsgi as a whole (Model/DevServerRun.lean): the closure variables status_set / headers_set / status_sent / headers_sent / chunk_response, write / start_response (with exc_info) / execute, the Expect: 100-continue interim response and the error path execute(InternalServerError()) are modelled for an application given as the sequence of its start_response / write / yield events, with the points where it raises and whether its iterable has close(); exceptions raised by start_response / write are assumed to propagate out of the application; the interim response http.server itself sends (handle_expect_100: Expect == '100-continue' on HTTP/1.1 handler and request) and what InternalServerError() does as a WSGI application are inputs (taken from the stdlib rule / the real exception class); connection_dropped errors, passthrough_errors, the post-response drain and logging are outside; AST facts about the source the machine transcribes are the obligation run_wsgi_source_structure",
-        "known finding F19c: with an EMPTY response header list the truthiness tests on headers_set / headers_sent let execute(InternalServerError()) through after the head went out: the error page is appended to the partial body and a chunked response is terminated as if complete (negation witness run_wsgi_error_after_head_full_false; run_wsgi_error_after_head_partial excludes exactly the empty list)",
+        "F19c (repaired in /repo by bc55b83): run_wsgi tested the truthiness of headers_set / headers_sent, so after start_response(status, []) a failing application got the InternalServerError page appended to its partial body and a chunked response terminated as complete; the model follows the repaired code (identity tests), run_wsgi_error_after_head is full strength, run_wsgi_empty_header_list_regression pins the former failing input, which also stays in the corpus of stream runwsgi",
         "observation (outside the property's quantifier, not a finding): with Expect: 100-continue on HTTP/1.1 the client receives two interim 100 Continue responses (http.server's own and run_wsgi's), and run_wsgi sends its 'HTTP/1.1 100 Continue' also to an HTTP/1.0 request; a request with 'Transfer-Encoding: gzip, chunked' is not de-chunked (only the exact token 'chunked', any case, is recognised) - without Content-Length the application then gets the empty stream",
         "known finding F19b: an origin-form target starting with '//' reaches the application with one leading slash because CPython >= 3.12 http.server collapses it before werkzeug runs; no Lean witness (request-line parsing is outside the model)",
         "the handler's protocol_version (set by the server) decides chunked responses; the request line's HTTP version is not consulted (table column, see framing_table_matches_model) - a chunked response can be sent to an HTTP/1.0 client of an HTTP/1.1 server",
